@@ -246,3 +246,163 @@ Example C08_ex_after_delete :
   let g := run_trace ginit (ex_trace ++ [SExtDel 0; SOp 2 [] (OGet exb exk VRNone)]) in
   map fst (store (ms g)) = [2%N] /\ map p_pid (parts (ms g)) = [2%N].
 Proof. vm_compute. split; reflexivity. Qed.
+
+(* ======================================================================================================
+   Extended machine (Model/MetaExt.v): ranged GetObject, UploadPartCopy (sharing of a wholly covered source
+   part via TryAddReferences, otherwise a fresh slice), ranged CopyObject.  All results above hold for every
+   history of [xop]s run by [xrun] / every [xstep].  (Proofs/MetaPartsExt.v, MetaPartsExtIds.v, MetaPartsExtGc.v)
+   ====================================================================================================== *)
+From Verif Require Import MetaExt MetaPartsExt MetaPartsExtIds MetaPartsExtGc MetaRows1.
+
+Theorem C08_ext_parts_inv_reachable : forall ops,
+  let s := fst (xrun ops) in
+  (forall pid, reg_get (registry s) pid =
+     if N.eqb (N.of_nat (length (filter (fun p => N.eqb (p_pid p) pid) (parts s)))) 0 then None
+     else Some (N.of_nat (length (filter (fun p => N.eqb (p_pid p) pid) (parts s)))))
+  /\ (forall row, In row (parts s) -> store_get (store s) (p_pid row) = Some (p_content row))
+  /\ (forall c pid, In (c, pid) (dedup s) -> reg_get (registry s) pid <> None /\ store_get (store s) pid = Some c)
+  /\ (forall p c, In (p, c) (store s) -> (p < next_id s)%N).
+Proof. exact (fun ops => proj1 (xrun_parts_inv ops)). Qed.
+Print Assumptions C08_ext_parts_inv_reachable.
+
+Theorem C08_ext_parts_inv_step : forall i hist s o, PartsInv s -> PartsInv (fst (xstep i hist s o)).
+Proof. exact xstep_parts_inv. Qed.
+Print Assumptions C08_ext_parts_inv_step.
+
+Theorem C08_ext_dead_stays_dead : forall i hist s o pid,
+  PartsInv s ->
+  (count_rows s pid = 0%N /\ reg_get (registry s) pid = None /\ (forall c, ~ In (c, pid) (dedup s)) /\
+   (pid < next_id s)%N) ->
+  let s' := fst (xstep i hist s o) in
+  count_rows s' pid = 0%N /\ reg_get (registry s') pid = None /\ (forall c, ~ In (c, pid) (dedup s')) /\
+  (pid < next_id s')%N.
+Proof. exact xstep_dead. Qed.
+Print Assumptions C08_ext_dead_stays_dead.
+
+(* next_id never decreases — with no premise on the state, for the core and for the extended step *)
+Theorem C08_next_id_monotone_unconditional : forall i hist s o,
+  (next_id s <= next_id (fst (step i hist s o)))%N.
+Proof. exact step_next_id_mono_all. Qed.
+Print Assumptions C08_next_id_monotone_unconditional.
+
+Theorem C08_ext_next_id_monotone_unconditional : forall i hist s o,
+  (next_id s <= next_id (fst (xstep i hist s o)))%N.
+Proof. exact xstep_next_id_mono_all. Qed.
+Print Assumptions C08_ext_next_id_monotone_unconditional.
+
+Theorem C08_ext_referenced_present : forall ops row,
+  In row (parts (fst (xrun ops))) ->
+  store_get (store (fst (xrun ops))) (p_pid row) = Some (p_content row).
+Proof. exact (fun ops => proj1 (proj2 (proj1 (xrun_parts_inv ops)))). Qed.
+Print Assumptions C08_ext_referenced_present.
+
+Theorem C08_ext_get_returns_recorded_bytes : forall ops r,
+  let s := fst (xrun ops) in
+  read_parts s (row_parts s r) = Some (concat (map p_content (row_parts s r))).
+Proof. exact (fun ops r => get_recorded_bytes _ r (proj1 (xrun_parts_inv ops))). Qed.
+Print Assumptions C08_ext_get_returns_recorded_bytes.
+
+Theorem C08_ext_get_object_full_body : forall ops b k v r,
+  let s := fst (xrun ops) in
+  lookup s b k v = inl (Some r) -> parts_size (row_parts s r) = o_size r ->
+  op_get s b k v = RObj (row_vid r) (o_etag r) (o_size r) (o_updated r) (o_ctype r)
+                        (Some (concat (map p_content (row_parts s r)))).
+Proof. exact (fun ops b k v r => op_get_recorded _ b k v r (proj1 (xrun_parts_inv ops))). Qed.
+Print Assumptions C08_ext_get_object_full_body.
+
+(* ranged GetObject: the returned body is the requested slice of the concatenation of the recorded part contents *)
+Theorem C08_ext_get_range_returns_slice : forall ops b k v rs re r rg,
+  let s := fst (xrun ops) in
+  lookup s b k v = inl (Some r) -> parts_size (row_parts s r) = o_size r ->
+  range_of (o_size r) rs re = Some rg ->
+  op_get_range s b k v rs re =
+    RObj (row_vid r) (o_etag r) (o_size r) (o_updated r) (o_ctype r)
+         (Some (slice (concat (map p_content (row_parts s r))) rg)).
+Proof. exact (fun ops b k v rs re r rg => op_get_range_recorded _ b k v rs re r rg (proj1 (xrun_parts_inv ops))). Qed.
+Print Assumptions C08_ext_get_range_returns_slice.
+
+(* … and a ranged read of an existing object never fails for lack of part bytes *)
+Theorem C08_ext_get_range_never_misses_bytes : forall ops b k v rs re r,
+  lookup (fst (xrun ops)) b k v = inl (Some r) ->
+  op_get_range (fst (xrun ops)) b k v rs re <> RErr OtherErr.
+Proof. exact (fun ops b k v rs re r => op_get_range_total _ b k v rs re r (proj1 (xrun_parts_inv ops))). Qed.
+Print Assumptions C08_ext_get_range_never_misses_bytes.
+
+Theorem C09_ext_no_orphans_sequential : forall ops p c,
+  store_get (store (fst (xrun ops))) p = Some c ->
+  exists row, In row (parts (fst (xrun ops))) /\ p_pid row = p.
+Proof. exact (fun ops => proj2 (xrun_parts_inv ops)). Qed.
+Print Assumptions C09_ext_no_orphans_sequential.
+
+Theorem C09_ext_no_orphans_step : forall i hist s o,
+  PartsInv s -> NoOrphans s -> NoOrphans (fst (xstep i hist s o)).
+Proof. exact xstep_no_orphans. Qed.
+Print Assumptions C09_ext_no_orphans_step.
+
+Theorem C08_ext_parts_owned : forall ops row, In row (parts (fst (xrun ops))) ->
+  exists r, In r (objs (fst (xrun ops))) /\ o_id r = p_obj row /\ o_dm r = false.
+Proof. exact xrun_parts_owned. Qed.
+Print Assumptions C08_ext_parts_owned.
+
+Theorem C09_ext_stored_is_referenced_sequential : forall ops p c,
+  store_get (store (fst (xrun ops))) p = Some c ->
+  exists row r, In row (parts (fst (xrun ops))) /\ p_pid row = p /\ p_content row = c /\
+                In r (objs (fst (xrun ops))) /\ o_id r = p_obj row /\ o_dm r = false.
+Proof. exact xrun_stored_is_referenced. Qed.
+Print Assumptions C09_ext_stored_is_referenced_sequential.
+
+(* row ids are unique and old, in every reachable state of the core and of the extended machine *)
+Theorem C08_row_ids_unique : forall ops,
+  NoDup (map o_id (objs (fst (run ops)))) /\
+  forall x, In x (objs (fst (run ops))) -> (o_id x < next_id (fst (run ops)))%N.
+Proof. exact run_ids. Qed.
+Print Assumptions C08_row_ids_unique.
+
+Theorem C08_ext_row_ids_unique : forall ops,
+  NoDup (map o_id (objs (fst (xrun ops)))) /\
+  forall x, In x (objs (fst (xrun ops))) -> (o_id x < next_id (fst (xrun ops)))%N.
+Proof. exact xrun_ids. Qed.
+Print Assumptions C08_ext_row_ids_unique.
+
+(* collector interleavings whose operation steps may also be extended operations: xgstep = any step of the collector
+   model (MetaGc.gstep, incl. Meta.step transactions, crashes, reconcile/prune/condemn/external delete) or one xstep *)
+Print xgstep.
+Print xgstep_fn.
+Theorem C08_ext_safe_interleaved : forall tr,
+  let g := fold_left xgstep_fn tr ginit in
+  forall row, In row (parts (ms g)) -> store_get (store (ms g)) (p_pid row) = Some (p_content row).
+Proof. exact xgc_safe. Qed.
+Print Assumptions C08_ext_safe_interleaved.
+
+Theorem C08_ext_condemned_never_re_referenced : forall tr1 tr2 pid,
+  let g1 := fold_left xgstep_fn tr1 ginit in
+  In pid (g_cond g1) ->
+  let s := ms (fold_left xgstep_fn tr2 g1) in
+  count_rows s pid = 0%N /\ reg_get (registry s) pid = None /\ (forall c, ~ In (c, pid) (dedup s))
+  /\ (pid < next_id s)%N.
+Proof. exact xgc_condemned_dead. Qed.
+Print Assumptions C08_ext_condemned_never_re_referenced.
+
+(* ---- non-vacuity for the extended operations ---- *)
+(* UploadPartCopy of a wholly covered source part shares it (ref_count 2, no new bytes); of a sub-range it stores
+   the slice as a fresh part; a ranged copy stores the slice *)
+Definition c08x_h : list xop :=
+  [Core (OMb wb); Core (OPut wb wk (cA ++ cB) CRNone); Core (OCmu wb c08_k2);
+   XUpc wb wk VRNone wb c08_k2 2 1 None None; XUpc wb wk VRNone wb c08_k2 2 2 (Some 4%Z) (Some 12%Z);
+   Core (OCpl wb c08_k2 2 None CRNone); XCpr wb c08_k2 VRNone wb B"k3" None (Some 5%Z);
+   XGetR wb c08_k2 VRNone (Some 14%Z) (Some 20%Z)].
+Example C08_ex_ext_state :
+  c08_view (fst (xrun c08x_h)) =
+    ([(2, 0, 1); (3, 1, 1); (3, 2, 4); (6, 0, 5)], [(1, 2); (4, 1); (5, 1)], [1; 4; 5], [5; 4; 1])%N.
+Proof. vm_compute. reflexivity. Qed.
+Example C08_ex_ext_range_read :
+  nth_error (snd (xrun c08x_h)) 7 =
+  Some (RObj VNull (mk_multi [cA ++ cB; B"AAAABBBB"]) 24 5000 None (Some B"BBAAAA")).
+Proof. vm_compute. reflexivity. Qed.
+Example C08_ex_ext_trace :
+  let g := fold_left xgstep_fn
+             [XG (SOp 0 [] (OMb wb)); XG (SOp 1 [] (OPut wb wk cA CRNone)); XG (SCrashPublished cB); XG SObserve;
+              XG (SList []); XOpx 2 [] (XCpr wb wk VRNone wb c08_k2 (Some 2%Z) None); XG (SCondemn 0); XG (SExtDel 0)]
+             ginit in
+  map fst (store (ms g)) = [4; 1]%N /\ map p_pid (parts (ms g)) = [1; 4]%N.
+Proof. vm_compute. split; reflexivity. Qed.
